@@ -136,11 +136,17 @@ class Flow:
             return self.jn(out, s)
         return self.on_stmt(st, s)
 
+    def runs_at_least_once(self, st):
+        it = getattr(st, 'iter', None)
+        return isinstance(it, (ast.Tuple, ast.List)) and len(it.elts) > 0 \
+            and not any(isinstance(e, ast.Starred) for e in it.elts)
+
     def loop(self, st, s, ctx, is_for):
         lp = _Loop()
         ctx.loops.append(lp)
         entry = s
         exit_state = None
+        out = None
         for _ in range(self.max_loop_iter):
             lp.continues = None
             if is_for:
@@ -161,6 +167,9 @@ class Flow:
         # loop exits normally (condition false / iterator exhausted)
         if is_for:
             normal = entry
+            if self.runs_at_least_once(st):
+                # literal non-empty iterable: the zero-iteration path does not exist
+                normal = out
         else:
             if entry is not None:
                 e = self.on_expr(st.test, self.copy(entry), 'test')
